@@ -364,6 +364,10 @@ def model_min_max(ex, path, frame, callee, args, dest_ty):
         return NotImplemented
     sg = a.ty in mirsmt.SIGNED
     lt = "bvslt" if sg else "bvult"
+    ca, cb = mirsmt.const_of(a.term), mirsmt.const_of(b.term)
+    if isinstance(ca, int) and isinstance(cb, int) and not sg and not isinstance(ca, bool):
+        is_min = re.search(r"::min(::<.*>)?$", callee) is not None
+        return Leaf(bvconst(min(ca, cb) if is_min else max(ca, cb), mirsmt.INT_W[a.ty]), a.ty)
     if re.search(r"::min(::<.*>)?$", callee):
         return Leaf(f"(ite ({lt} {a.term} {b.term}) {a.term} {b.term})", a.ty)
     return Leaf(f"(ite ({lt} {a.term} {b.term}) {b.term} {a.term})", a.ty)
@@ -848,7 +852,8 @@ RX_FLUSH = r"flush_wal$"
 
 @obligation(id="C01.commit_order", also="C02",
             funcs="Session::commit_transaction,Database::execute::{closure#0},Database::execute_batch::{closure#1},TransactionLogger::log_commit,TransactionLogger::log_end",
-            bounds="every path of the commit-acknowledging functions; callees uninterpreted (both outcomes)")
+            bounds="every path of the commit-acknowledging functions; callees uninterpreted (both outcomes)",
+            native="c01_every_acknowledged_statement_is_forced")
 def c01_commit_order(env, ob):
     agg = None
     for name, (ctx, f, args, res) in commit_paths(env):
@@ -3721,7 +3726,21 @@ def _container_models(N, cells, sizeof):
         if ca is not None and cb is not None:
             return Leaf(_u(-(-ca // cb)), "usize")
         return Leaf(f"(bvadd (bvudiv {a.term} {b.term}) (ite (= (bvurem {a.term} {b.term}) {_u(0)}) {_u(0)} {_u(1)}))", "usize")
-    return {r"box_assume_init_into_vec_unsafe::<usize, \d+>$": m_vec_from_box,
+    def m_sat_sub(ex, path, frame, callee, args, dest_ty):
+        a, b = args
+        ca, cb = mirsmt.const_of(a.term), mirsmt.const_of(b.term)
+        if ca is not None and cb is not None:
+            return Leaf(_u(max(ca - cb, 0)), "usize")
+        return Leaf(f"(ite (bvult {a.term} {b.term}) {_u(0)} (bvsub {a.term} {b.term}))", "usize")
+
+    def m_ord_min(ex, path, frame, callee, args, dest_ty):
+        a, b = args
+        ca, cb = mirsmt.const_of(a.term), mirsmt.const_of(b.term)
+        if ca is not None and cb is not None:
+            return Leaf(_u(min(ca, cb)), "usize")
+        return Leaf(f"(ite (bvult {a.term} {b.term}) {a.term} {b.term})", "usize")
+    return {r"<impl usize>::saturating_sub$": m_sat_sub, r"^<usize as Ord>::min$": m_ord_min,
+            r"box_assume_init_into_vec_unsafe::<usize, \d+>$": m_vec_from_box,
             r"^Vec::<usize>::len$|^VecDeque::<OwnedCell>::len$": m_len,
             r"^<Vec<usize> as Index(Mut)?<usize>>::index(_mut)?$|^<VecDeque<OwnedCell> as Index<usize>>::index$": m_index,
             r"^Vec::<usize>::push$": m_push, r"^<Vec<usize> as Deref>::deref$": m_deref,
@@ -3744,7 +3763,7 @@ CELLRS = "storage/cell.rs"
 def _balance_plan(env, ob, N, page_size, min_keys):
     H = repr_c_size(env, CELLRS, "CellHeader")
     PH = repr_c_size(env, "storage/page.rs", "BtreePageHeader")
-    sizeof = {"M": PH, "u16": 2, "CellHeader": H}
+    sizeof = {"M": PH, "u16": 2, "u64": 8, "CellHeader": H}
     ctx = mirsmt.Ctx()
     seq = [Cell(Agg(ctx, f"cell{i}", "storage::cell::OwnedCell")) for i in range(N)]
     dq = Agg(ctx, None, "VecDeque<OwnedCell>")
@@ -3753,7 +3772,8 @@ def _balance_plan(env, ob, N, page_size, min_keys):
               r"^OwnedCell::total_size$": (CELLRS, "total_size", r"&OwnedCell\) -> usize"),
               r"BtreeOps>::overflow_threshold$": (BUF, "overflow_threshold", None),
               r"BtreeOps>::underflow_threshold$": (BUF, "underflow_threshold", None),
-              r"^MemBlock::<M>::usable_space$": (BUF, "usable_space", None)}
+              r"^MemBlock::<M>::usable_space$": (BUF, "usable_space", None),
+              r"BtreeOps>::max_payload_size_in$|^Self::max_payload_size_in$|::max_payload_size_in$": (BUF, "max_payload_size_in", None)}
     f = env.mir.find("tree/bplustree.rs", "compute_best_cell_distribution")
     mdl = dict(COMMON_MODELS)
     mdl.update(_container_models(N, seq, sizeof))
@@ -3764,7 +3784,16 @@ def _balance_plan(env, ob, N, page_size, min_keys):
     hi = env.struct_fields(CELLRS, "OwnedCell").index("header")
     si = env.struct_fields(CELLRS, "CellHeader").index("size")
     usable = page_size - PH
-    maxp = ((usable // min_keys) - H - 2) & ~7          # BtreeOps::ideal_max_payload_size (checked by C10.thresholds)
+    # largest padded payload a stored cell can have: the real BtreeOps::ideal_max_payload_size(page_size, min_keys),
+    # executed from its MIR with the same models, plus the 8-byte overflow page id an overflow cell carries
+    fi = env.mir.find(BUF, "ideal_max_payload_size")
+    exi = mirsmt.Executor(env.mir, ctx, inline=inline, models=mdl, loop_bound=2)
+    exi.const_values = {"CELL_HEADER_SIZE": H, "CELL_ALIGNMENT": env.const_value("common/mod.rs", "CELL_ALIGNMENT")}
+    ri = [rv for p_, rv in exi.run(fi, [Leaf(_u(page_size), "usize"), Leaf(_u(min_keys), "usize")]) if not p_.panics and not p_.cut]
+    ideal = mirsmt.const_of(ri[0].term) if len(ri) == 1 and isinstance(ri[0], Leaf) else None
+    if ideal is None:
+        raise Unsupported("ideal_max_payload_size did not evaluate to a literal for this page size / min_keys")
+    maxp = ideal + 8
     A = [f"(= {hname} {_u(H)})"]
     szs = []
     for i in range(N):
@@ -3858,7 +3887,7 @@ def _balance_plan(env, ob, N, page_size, min_keys):
     for i in range(0, len(queries), B):
         bisect(list(range(i, min(i + B, len(queries)))))
     kw = dict(paths=len(res), queries=n_q[0] + len(ex.pruned) + online.n, conditions=len(queries), pruned=len(ex.pruned))
-    return fails, incon, kw, dict(H=H, PH=PH, maxp=maxp, usable=usable, ok_paths=n_ok)
+    return fails, incon, kw, dict(H=H, PH=PH, ideal=ideal, maxp=maxp, usable=usable, ok_paths=n_ok)
 
 
 def gen_balance_native(name, cases, page_size):
@@ -3927,6 +3956,12 @@ def c10_balance_plan_q(env, ob):
             bounds="page 4096, min_keys 3, every sequence of 6..7 cells with ANY admissible sizes (three pages)")
 def c10_balance_plan_t(env, ob):
     return run_balance_plan(env, ob, [6, 7])
+
+
+@obligation(id="C10.balance_plan[8 cells]", tier="thorough", funcs=BP_FUNCS, assume=BP_ASSUME,
+            bounds="page 4096, min_keys 3, every sequence of 8 cells with ANY admissible sizes (three pages with room to spare)")
+def c10_balance_plan_t8(env, ob):
+    return run_balance_plan(env, ob, [8])
 
 
 # =====================================================================================================================
